@@ -289,6 +289,7 @@ pub struct C14Case {
 pub struct C14 {
     pub cfg: GenCfg,
     pub pairs: bool,
+    pub name: &'static str,
 }
 
 fn must_not_run(flat: &Flat, s: usize) -> BTreeSet<usize> {
@@ -431,11 +432,7 @@ fn tl_or_below_tl(flat: &Flat, s: usize) -> bool {
 impl Prop for C14 {
     type Case = C14Case;
     fn name(&self) -> &'static str {
-        if self.pairs {
-            "c14-pairs"
-        } else {
-            "c14-faults"
-        }
+        self.name
     }
     fn property(&self) -> &'static str {
         "C14"
@@ -521,6 +518,16 @@ impl Prop for C14 {
         }
         st.eval(points.saturating_sub(1));
         st.class_n("fault_points", points);
+        let dep_in_group = b.layouts.by_bid.values().any(|l| {
+            l.stages.iter().flatten().any(|g| {
+                g.iter()
+                    .enumerate()
+                    .any(|(i, x)| g[..i].iter().any(|d| flat.deps_star(*x).contains(d)))
+            })
+        });
+        if dep_in_group {
+            st.class("plans_with_dependent_behind_its_dependency_in_one_group");
+        }
         if controllable {
             st.class("plans_schedule_controlled");
         }
